@@ -52,6 +52,53 @@ Theorem C18_sendtofx_ibc_failure_keeps_nothing :
 Proof. exact stf_transfer_failure_keeps_nothing. Qed.
 Print Assumptions C18_sendtofx_ibc_failure_keeps_nothing.
 
+(* outgoing bridge calls coming back (BridgeCallResult claims): there is no tolerated failure — success deletes the record,
+   failure refunds and deletes, and a refund that cannot be paid (or an unknown nonce) PANICS: the transaction keeps nothing *)
+Theorem C18_bridgecall_result_outcomes :
+  forall S (refund : Z -> S -> option S) del consume id s,
+  result_tx S refund del consume id true true s = (del id (consume s), true) /\
+  (forall s1, refund id (consume s) = Some s1 -> result_tx S refund del consume id true false s = (del id s1, true)) /\
+  (forall found, found = false \/ refund id (consume s) = None -> result_tx S refund del consume id found false s = (s, false)).
+Proof. exact result_outcomes. Qed.
+Print Assumptions C18_bridgecall_result_outcomes.
+
+(* the clean-up of timed-out outgoing calls runs INSIDE the vote transaction and its refunds can only panic.  Guarded
+   statement: if every timed-out call can be refunded, a failed handler leaves the designated outcome plus the clean-up … *)
+Theorem C18_attestation_failed_handler_with_cleanup :
+  forall S (refund : Z -> S -> option S) del mark hp record finish timed_out pre x s3,
+  hp (mark (record pre)) = Some (Err x) ->
+  cleanup_calls S refund del (timed_out (mark (record pre))) (mark (record pre)) = Some s3 ->
+  claim_tx_p S refund del mark hp record finish timed_out pre = (finish s3, 1).
+Proof. exact claim_tx_p_payable. Qed.
+Print Assumptions C18_attestation_failed_handler_with_cleanup.
+
+(* … unguarded it is FALSE of the code as it is (finding C18-2): one timed-out call whose refund cannot be paid — at any
+   position — fails the transaction; the event is not marked observed, tolerated handler failure or not *)
+Theorem C18_attestation_unpayable_refund_refuted :
+  exists (refund : Z -> Z -> option Z) del mark hp record finish timed_out pre,
+    (exists x, hp (mark (record pre)) = Some (Err x)) /\
+    claim_tx_p Z refund del mark hp record finish timed_out pre <> (finish (mark (record pre)), 1) /\
+    claim_tx_p Z refund del mark hp record finish timed_out pre = (pre, 2).
+Proof. exact claim_tx_p_refuted. Qed.
+Print Assumptions C18_attestation_unpayable_refund_refuted.
+
+Theorem C18_attestation_unpayable_refund_exact :
+  forall S (refund : Z -> S -> option S) del mark hp record finish timed_out pre r ids1 i ids2 s1,
+  hp (mark (record pre)) = Some r ->
+  (let s2 := match r with Ok x => commit (mark (record pre)) x | Err x => discard (mark (record pre)) x end in
+   timed_out s2 = ids1 ++ i :: ids2 /\ cleanup_calls S refund del ids1 s2 = Some s1 /\ refund i s1 = None) ->
+  claim_tx_p S refund del mark hp record finish timed_out pre = (pre, 2).
+Proof. exact claim_tx_p_unpayable_refund. Qed.
+Print Assumptions C18_attestation_unpayable_refund_exact.
+
+(* histories: after ANY sequence of crossings of the tolerated-failure boundaries (and plain transactions), failed or not,
+   the state is the fold of the designated outcomes — partial effects of failed sub-steps never accumulate *)
+Theorem C18_history_is_fold_of_designated_outcomes :
+  forall S (xs : list (crossing S)) s,
+  fold_left (fun st x => cross x st) xs s = fold_left (fun st x => designated x st) xs s.
+Proof. exact @history_designated. Qed.
+Print Assumptions C18_history_is_fold_of_designated_outcomes.
+
 (* proposal: failure of the message at ANY position, after any number of succeeding messages *)
 Theorem C18_gov_failed_message_any_position :
   forall S (ms1 ms2 : list (S -> result S)) f pre_exec set_status pre s1 s',
